@@ -299,9 +299,9 @@ func c11Example(c *Ctx, r *Report) {
 			return
 		}
 		v := apath(mu.Value)
-		if strings.HasPrefix(v, "lint.stripGlobalsFromExample(") && strings.Contains(v, ".Configure(") && strings.HasPrefix(apath(mu.Key), "next(range(r.") {
+		if strings.HasPrefix(v, "lint.stripGlobalsFromExample(") && strings.Contains(v, ".Lint().(lint.Configurable)") && strings.Contains(v, ".Configure(") && strings.HasPrefix(apath(mu.Key), "next(range(r.") {
 			nput++
 		}
 	})
-	r.Check(nput >= 3, "example-coverage", "sections", fn.Pos(), fmt.Sprintf("%d section stores", nput), fmt.Sprintf("only %d of the 3 per-kind loops store a section built from the instance's Configure() under the lint's name", nput))
+	r.Check(nput >= 3, "example-coverage", "sections", fn.Pos(), fmt.Sprintf("%d section stores", nput), fmt.Sprintf("only %d of the 3 per-kind loops store a section built from Configure() of a NEW INSTANCE (lint.Lint()) under the lint's name", nput))
 }
